@@ -103,6 +103,75 @@ pub fn totals_div<'a>(qs: impl Iterator<Item = &'a Quantity<QValue>>, conv: &Con
     json!({"classes": cl, "texts": tx, "exact": exact})
 }
 
+/// group totals with the BUNDLED converter (fractions on for imperial units): a range or number added in two halves,
+/// the group fitted; both ends of the total must be the sum of the inputs as physical amounts (ratios: the specification's
+/// standard definitions when it has them). One record per unit.
+pub fn bundled_fit(std: &Value) -> Vec<Value> {
+    let conv = Converter::bundled();
+    let ranges: Vec<(f64, f64)> = {
+        let mut v = Vec::new();
+        for lo in [0.3, 0.5, 1.0, 2.0, 3.0, 4.0, 6.0, 8.0, 12.0, 16.0, 24.0, 32.0, 47.0, 48.0, 96.0] {
+            for k in [1.0, 1.05, 1.1, 1.2333, 1.37, 1.5, 1.77, 2.31, 3.3] {
+                v.push((lo, lo * k));
+            }
+        }
+        v
+    };
+    let mut out = Vec::new();
+    for u in conv.all_units() {
+        if u.difference != 0.0 {
+            continue;
+        }
+        let ratio = |x: &cooklang::convert::Unit| -> f64 {
+            let key = if x.symbol() == "fl oz" { "floz" } else { x.symbol() };
+            std["defs"].get(key).and_then(|s| s.as_str()).and_then(|s| s.parse().ok()).unwrap_or(x.ratio)
+        };
+        let (mut bad, mut panics, mut first) = (0, 0, String::new());
+        for &(lo, hi) in &ranges {
+            let half = |a: f64, b: f64| {
+                let v = if a == b { QValue::Number(Number::Regular(a / 2.0)) } else { QValue::Range { start: Number::Regular(a / 2.0), end: Number::Regular(b / 2.0) } };
+                Quantity::new(v, Some(u.symbol().to_string()))
+            };
+            let r = guarded(|| {
+                let mut g = GroupedQuantity::empty();
+                g.add(&half(lo, hi), &conv);
+                g.add(&half(lo, hi), &conv);
+                let _ = g.fit(&conv);
+                g.into_vec()
+            });
+            match r {
+                Err(_) => panics += 1,
+                Ok(v) => {
+                    let ok = v.len() == 1 && {
+                        let q = &v[0];
+                        let (a, b) = match q.value() {
+                            QValue::Number(n) => (n.value(), n.value()),
+                            QValue::Range { start, end } => (start.value(), end.value()),
+                            QValue::Text(_) => (f64::NAN, f64::NAN),
+                        };
+                        match q.unit().and_then(|x| conv.find_unit(x)) {
+                            Some(au) => {
+                                let close = |x: f64, w: f64| (x - w).abs() <= 1e-6 * w.abs().max(1e-9);
+                                au.physical_quantity == u.physical_quantity && close(a * ratio(&au), lo * ratio(&u)) && close(b * ratio(&au), hi * ratio(&u))
+                            }
+                            None => false,
+                        }
+                    };
+                    if !ok {
+                        bad += 1;
+                        if first.is_empty() {
+                            first = format!("{lo}-{hi} {} in two halves -> {}", u.symbol(), v.iter().map(|q| q.to_string()).collect::<Vec<_>>().join(" + "));
+                        }
+                    }
+                }
+            }
+        }
+        out.push(json!({"kind": "bundledfit", "unit": project::s(u.symbol()), "cases": ranges.len(), "bad": bad, "panics": panics, "first": project::s(&first),
+                        "ops": [], "totals1": [], "texts1": [], "obs": {"st": "ok", "steps": []}, "preserved": bad == 0 && panics == 0}));
+    }
+    out
+}
+
 /// `group --in ops.ndjson --out obs.ndjson`
 pub fn main(args: &[String]) {
     let recs = read_ndjson(req_arg(args, "--in"));
@@ -156,6 +225,12 @@ pub fn main(args: &[String]) {
             o
         })
         .collect();
+    let mut out = out;
+    let nseq = out.len();
+    if let Some(p) = arg(args, "--std") {
+        let std: Value = serde_json::from_str(&std::fs::read_to_string(p).expect("std file")).expect("std json");
+        out.extend(bundled_fit(&std));
+    }
     write_ndjson(req_arg(args, "--out"), &out);
-    println!("group: {} sequences", out.len());
+    println!("group: {} sequences, {} bundled units", nseq, out.len() - nseq);
 }
